@@ -512,6 +512,27 @@ struct World
             {
                 int s = pick(o.I(0));
                 if (s < 0) break;
+                if (o.I(1) & 1)
+                {
+                    // update with the object's own stored inputs (the arguments alias the members being replaced)
+                    Spline &S = *h[s].s;
+                    S.update(S.getTimeSegments(), S.getSpacePoints(), S.getStartTime(), S.getBoundaryConditions());
+                    h[s].m.by_points = false;
+                    check_twin(h[s], "after update with aliased arguments", true);
+                    ctx.count("probe.update_with_aliased_arguments");
+                    changed = true;
+                    break;
+                }
+                if (o.I(1) & 2)
+                {
+                    // move construction into a new object; the moved-from object is destroyed unused
+                    std::unique_ptr<Spline> moved(new Spline(std::move(*h[s].s)));
+                    h[s].s = std::move(moved);
+                    check_twin(h[s], "after move construction", true);
+                    ctx.count("probe.move_constructed");
+                    changed = true;
+                    break;
+                }
                 Spline *alias = h[s].s.get();
                 *h[s].s = *alias;
                 check_twin(h[s], "after self-assignment", true);
@@ -619,7 +640,8 @@ inline Plan gen_plan(uint64_t seed, uint64_t index, Tier tier, int profile)
     else if (profile == 1) { add(OP_UPDATE, 8); add(OP_SAME_SPAN, 1); add(OP_PROPAGATE, 4); add(OP_ENERGY, 1); add(OP_ENERGY_GRAD, 2); add(OP_PARTIALS, 1); add(OP_EVAL, 3); add(OP_COEFFS, 1); }
     else if (profile == 2) { add(OP_UPDATE, 6); add(OP_SAME_SPAN, 2); add(OP_EVAL, 8); add(OP_TRAJ_COPY, 3); add(OP_COEFFS, 1); }
     else { add(OP_UPDATE, 4); add(OP_EVAL, 3); add(OP_PROPAGATE, 2); add(OP_ENERGY_GRAD, 1); }
-    if (f_copy) { add(OP_COPY, profile == 3 ? 4 : 1); add(OP_ASSIGN, profile == 3 ? 5 : 1); add(OP_SELF_ASSIGN, 1); }
+    if (f_copy) { add(OP_COPY, profile == 3 ? 4 : 1); add(OP_ASSIGN, profile == 3 ? 5 : 1); }
+    add(OP_SELF_ASSIGN, profile == 0 ? 1 : 2);
     if (f_destroy) add(OP_DESTROY, 2);
     for (int q = 0; q < nops; ++q)
     {
@@ -638,7 +660,8 @@ inline Plan gen_plan(uint64_t seed, uint64_t index, Tier tier, int profile)
         case OP_ENERGY_GRAD: o.i = {(int64_t)r.below(kHandles), (int64_t)r.below(2)}; break;
         case OP_EVAL: o.i = {(int64_t)r.below(kHandles), (int64_t)r.below(8), (int64_t)r.below(64), (int64_t)r.below(8)}; o.d = {r.unit()}; break;
         case OP_COPY: case OP_ASSIGN: o.i = {(int64_t)r.below(kHandles), (int64_t)r.below(kHandles)}; break;
-        case OP_DESTROY: case OP_SELF_ASSIGN: o.i = {(int64_t)r.below(kHandles)}; break;
+        case OP_DESTROY: o.i = {(int64_t)r.below(kHandles)}; break;
+        case OP_SELF_ASSIGN: o.i = {(int64_t)r.below(kHandles), (int64_t)r.below(4)}; break;
         case OP_TRAJ_COPY: o.i = {(int64_t)r.below(kHandles), (int64_t)r.below(4)}; break;
         case OP_ADJOINT: o.i = {(int64_t)r.below(kHandles), (int64_t)r.below(1u << 30), (int64_t)r.below(6)}; break;
         case OP_LINEARITY: o.i = {(int64_t)r.below(kHandles), (int64_t)r.below(1u << 30), (int64_t)r.below(6), (int64_t)r.below(7), (int64_t)r.below(5)}; break;
